@@ -3,7 +3,7 @@
    refuses) | R:<status> (every route rejected; status from the recover function). *)
 From Coq Require Import String List Bool Arith.
 Import ListNotations.
-From VP Require Import Base.Render Rbac.Syntax Rbac.Model Rbac.Policy Rbac.Proofs Rbac.ProofsPure Rbac.Gen_Routes Rbac.Props.
+From VP Require Import Base.Render Rbac.Syntax Rbac.Model Rbac.Policy Rbac.Gen_Routes Rbac.Apps.
 Open Scope string_scope.
 
 Definition render_result (r : result) : string :=
